@@ -231,12 +231,7 @@ func containsC24(l []string, s string) bool {
 
 // hasTagsC24: "tags separated by commas mean the snapshot must have all of those tags
 // (AND within the list)"; '' "will match untagged snapshots only".
-// quirk=true reproduces finding C24:hastags-empty-tag-short-circuit (an untagged
-// snapshot satisfies every list that *starts* with '').
-func hasTagsC24(s vSnapC24, l TagList, quirk bool) bool {
-	if quirk && len(s.tags) == 0 && len(l) > 0 && l[0] == "" {
-		return true
-	}
+func hasTagsC24(s vSnapC24, l TagList) bool {
 	for _, want := range l {
 		if want == "" && len(s.tags) == 0 {
 			continue
@@ -250,14 +245,14 @@ func hasTagsC24(s vSnapC24, l TagList, quirk bool) bool {
 
 // matchesC24 is the documented filter semantics: host is one of the hosts (if any),
 // at least one tag list is satisfied (if any), every path is among the snapshot's paths.
-func matchesC24(s vSnapC24, f filterC24, cleanPaths bool, quirk bool) bool {
+func matchesC24(s vSnapC24, f filterC24, cleanPaths bool) bool {
 	if len(f.hosts) > 0 && !containsC24(f.hosts, s.host) {
 		return false
 	}
 	if len(f.tags) > 0 {
 		any := false
 		for _, l := range f.tags {
-			any = any || hasTagsC24(s, l, quirk)
+			any = any || hasTagsC24(s, l)
 		}
 		if !any {
 			return false
@@ -283,6 +278,20 @@ func sortedC24(l []string) string {
 func TestVerifC24Filter(t *testing.T) {
 	st := verifkit.Begin(t, "C24")
 	ctx := context.Background()
+
+	// regression probe, exact shape of the repaired finding C24:hastags-empty-tag-short-circuit
+	for _, c := range []struct {
+		have []string
+		list TagList
+		want bool
+	}{
+		{nil, TagList{"", "a"}, false}, {nil, TagList{"a", ""}, false}, {nil, TagList{""}, true}, {nil, TagList{"", ""}, true},
+		{[]string{"a"}, TagList{"", "a"}, false}, {[]string{"a"}, TagList{"a"}, true}, {[]string{"a"}, TagList{""}, false}, {nil, TagList{}, true},
+	} {
+		if got := (&Snapshot{Tags: c.have}).HasTags(c.list); got != c.want {
+			t.Fatalf("HasTags(%q) on a snapshot tagged %q = %v, want %v", []string(c.list), c.have, got, c.want)
+		}
+	}
 	rapid.Check(t, func(t *rapid.T) {
 		repo, model := genRepoC24(t)
 		f := genFilterC24(t, model)
@@ -301,21 +310,14 @@ func TestVerifC24Filter(t *testing.T) {
 		}
 
 		// ---- the predicates themselves, on loaded snapshots
-		quirk := false
-		quirkShape := false
 		for _, s := range model {
 			sn, err := LoadSnapshot(ctx, repo, s.id)
 			if err != nil {
 				t.Fatalf("LoadSnapshot: %v", err)
 			}
 			for _, l := range f.tags {
-				got, want := sn.HasTags(l), hasTagsC24(s, l, false)
+				got, want := sn.HasTags(l), hasTagsC24(s, l)
 				if got != want {
-					// the one listed deviation: '' first, other tags behind it, untagged snapshot
-					if len(s.tags) == 0 && len(l) > 1 && l[0] == "" && got && st.Known("C24:hastags-empty-tag-short-circuit") {
-						quirk, quirkShape = true, true
-						continue
-					}
 					t.Fatalf("HasTags(%q) on a snapshot with tags %q = %v; documented (all of the tags, '' = untagged): %v", []string(l), s.tags, got, want)
 				}
 			}
@@ -327,7 +329,7 @@ func TestVerifC24Filter(t *testing.T) {
 			}
 			wantTL := len(f.tags) == 0
 			for _, l := range f.tags {
-				wantTL = wantTL || hasTagsC24(s, l, quirk)
+				wantTL = wantTL || hasTagsC24(s, l)
 			}
 			if got := sn.HasTagList(f.tags); got != wantTL {
 				t.Fatalf("HasTagList(%q) on tags %q = %v, want %v", f.tags, s.tags, got, wantTL)
@@ -344,7 +346,7 @@ func TestVerifC24Filter(t *testing.T) {
 		// ---- FindAll without arguments: exactly the matching snapshots, each once
 		want := map[restic.ID]bool{}
 		for _, s := range model {
-			if matchesC24(s, f, false, quirk) {
+			if matchesC24(s, f, false) {
 				want[s.id] = true
 			}
 		}
@@ -393,7 +395,7 @@ func TestVerifC24Filter(t *testing.T) {
 		var cands []vSnapC24
 		var newest time.Time
 		for _, s := range model {
-			if matchesC24(s, lf, true, quirk) && (lf.limit.IsZero() || !s.time.After(lf.limit)) {
+			if matchesC24(s, lf, true) && (lf.limit.IsZero() || !s.time.After(lf.limit)) {
 				cands = append(cands, s)
 				if len(cands) == 1 || s.time.After(newest) {
 					newest = s.time
@@ -413,7 +415,7 @@ func TestVerifC24Filter(t *testing.T) {
 				t.Fatalf("latest with filter %+v: %d candidates, got %v err %v", lf, len(cands), sn, err)
 			}
 			s, ok := byID[*sn.ID()]
-			if !ok || !matchesC24(s, lf, true, quirk) {
+			if !ok || !matchesC24(s, lf, true) {
 				t.Fatalf("latest with filter %+v returned a snapshot that does not match: %+v", lf, s)
 			}
 			if !lf.limit.IsZero() && sn.Time.After(lf.limit) {
@@ -476,7 +478,7 @@ func TestVerifC24Filter(t *testing.T) {
 			var c2 []vSnapC24
 			var newest2 time.Time
 			for _, s := range model {
-				if matchesC24(s, f, true, quirk) && (f.limit.IsZero() || !s.time.After(f.limit)) {
+				if matchesC24(s, f, true) && (f.limit.IsZero() || !s.time.After(f.limit)) {
 					c2 = append(c2, s)
 					if len(c2) == 1 || s.time.After(newest2) {
 						newest2 = s.time
@@ -490,7 +492,7 @@ func TestVerifC24Filter(t *testing.T) {
 			}
 			for id, n := range gotArgs {
 				s := byID[id]
-				isLatestCand := hasLatest && len(c2) > 0 && s.time.Equal(newest2) && matchesC24(s, f, true, quirk) && (f.limit.IsZero() || !s.time.After(f.limit))
+				isLatestCand := hasLatest && len(c2) > 0 && s.time.Equal(newest2) && matchesC24(s, f, true) && (f.limit.IsZero() || !s.time.After(f.limit))
 				if !explicit[id] && !isLatestCand {
 					t.Fatalf("FindAll(%q) with filter %+v yielded %+v which is neither named nor a newest matching snapshot", args, f, s)
 				}
@@ -509,7 +511,7 @@ func TestVerifC24Filter(t *testing.T) {
 					found := latestGot != nil
 					for id := range gotArgs {
 						s := byID[id]
-						if explicit[id] && s.time.Equal(newest2) && matchesC24(s, f, true, quirk) && (f.limit.IsZero() || !s.time.After(f.limit)) {
+						if explicit[id] && s.time.Equal(newest2) && matchesC24(s, f, true) && (f.limit.IsZero() || !s.time.After(f.limit)) {
 							found = true
 						}
 					}
@@ -656,8 +658,11 @@ func TestVerifC24Filter(t *testing.T) {
 				classes = append(classes, "taglist=several")
 			}
 		}
-		if quirkShape {
-			classes = append(classes, "known-hastags-deviation")
+		for _, l := range f.tags {
+			if untagged > 0 && len(l) > 1 && l[0] == "" && !(len(l) == 2 && l[1] == "") {
+				classes = append(classes, "''-then-tag-vs-untagged-snapshot") // shape of the repaired C24:hastags-empty-tag-short-circuit
+				break
+			}
 		}
 		if !f.limit.IsZero() {
 			classes = append(classes, "time-limit")
